@@ -3,8 +3,9 @@ CONSTANTS
   Callers = {"c1", "c2"}
   Cancellers = {"k1"}
   Periodic = FALSE
+  DeleteByName = FALSE
   DropOnClaim = FALSE
   MaxRuns = 1
-INVARIANTS TypeOK AtMostOnce NoOverlap NoPanic NoLostRun NotDropped CancelBranchNoRun NameReusable LockFreeAtEnd
+INVARIANTS TypeOK AtMostOnce NoOverlap NoPanic NoLostRun NotDropped CancelBranchNoRun NameReusable NameSlotUnique SuccessorReachable LockFreeAtEnd
 PROPERTIES Terminates NoStuckCaller
 CHECK_DEADLOCK FALSE
